@@ -390,6 +390,7 @@ package sam
 //@ trusted func ext:encoding/hex.DecodedLen
 //@   ensures result == div(x, 2)
 //@ trusted func ext:encoding/hex.Decode
+//@   requires len(dst) >= div(len(src), 2)
 //@   modifies dst[:]
 //@ trusted func ext:bytes.Split
 //@   ensures len(result) >= 1 && fresh(result)
@@ -399,3 +400,66 @@ package sam
 //@   mode int
 //@   props C11
 //@   decoder
+
+// Header text parsing (C11): any header text gives a header or an error. Each
+// line parser looks at the fields "TG:value" of its line; a field shorter than
+// the tag and its colon is malformed, not a panic.
+//@ trusted func ext:net/url.Parse
+//@   ensures result1 == nil ==> (result0 != nil && fresh(result0))
+//@ trusted func ext:time.Parse
+//@ trusted func ext:bytes.Equal
+
+//@ func headerLine
+//@   mode int
+//@   props C11
+//@   decoder
+//@   requires bh != nil
+//@   modifies all(bh), arrays(tagPair)
+//@ trusted func parseISO8601
+//@ func validLen
+//@   inline
+//@ func validInt32
+//@   inline
+
+// The line parsers that add an item to the header also keep the header
+// identity invariant of C07.
+//@ func referenceLine
+//@   mode int
+//@   props C11, C07
+//@   decoder
+//@   requires bh != nil && len(bh.refs) <= 1000000 && refsA(bh) && refsB(bh) && refsC(bh)
+//@   modifies bh.refs, mapof(bh.seenRefs), arrays(*Reference), arrays(tagPair), backing(bh.refs), objects(Reference)
+//@   loop 0 invariant @inv fresh(rf) && refsA(bh) && refsB(bh) && refsC(bh) && bh.refs == old(bh.refs) &&
+//@       (nok ==> (dup == has(bh.seenRefs, rf.name) && (dup ==> dupID == bh.seenRefs[rf.name]))) && (!nok ==> !dup)
+//@   ensures[C07] @invA refsA(bh)
+//@   ensures[C07] @invB refsB(bh)
+//@   ensures[C07] @invC refsC(bh)
+
+//@ func readGroupLine
+//@   mode int
+//@   props C11, C07
+//@   decoder
+//@   requires bh != nil && len(bh.rgs) <= 1000000 && rgsA(bh) && rgsB(bh) && rgsC(bh)
+//@   modifies bh.rgs, mapof(bh.seenGroups), arrays(*ReadGroup), arrays(tagPair)
+//@   loop 0 invariant @inv fresh(rg) && rgsA(bh) && rgsB(bh) && rgsC(bh) && bh.rgs == old(bh.rgs) && (idok ==> !has(bh.seenGroups, rg.name))
+//@   ensures[C07] @invA rgsA(bh)
+//@   ensures[C07] @invB rgsB(bh)
+//@   ensures[C07] @invC rgsC(bh)
+
+//@ func programLine
+//@   mode int
+//@   props C11, C07
+//@   decoder
+//@   requires bh != nil && len(bh.progs) <= 1000000 && progsA(bh) && progsB(bh) && progsC(bh)
+//@   modifies bh.progs, mapof(bh.seenProgs), arrays(*Program), arrays(tagPair)
+//@   loop 0 invariant @inv fresh(p) && progsA(bh) && progsB(bh) && progsC(bh) && bh.progs == old(bh.progs) && (idok ==> !has(bh.seenProgs, p.uid))
+//@   ensures[C07] @invA progsA(bh)
+//@   ensures[C07] @invB progsB(bh)
+//@   ensures[C07] @invC progsC(bh)
+
+//@ func commentLine
+//@   mode int
+//@   props C11
+//@   decoder
+//@   requires bh != nil
+//@   modifies bh.Comments, arrays(string)
